@@ -56,12 +56,12 @@ def add_contents_to_tarfile(contents_set, tar_fd, absolute_paths=False):
             key = (x.dev, x.inode)
             existing = inodes.get(key)
             data = None
-            if existing is not None:
-                if x._can_be_hardlinked(existing):
-                    t.type = tarfile.LNKTYPE
-                    t.linkname = "./{}".format(existing.location.lstrip("/"))
-                    t.size = 0
+            if existing is not None and x._can_be_hardlinked(existing):
+                t.type = tarfile.LNKTYPE
+                t.linkname = "./{}".format(existing.location.lstrip("/"))
+                t.size = 0
             else:
+                # not a link to something already written: store the file itself
                 inodes[key] = x
                 data = x.data.bytes_fileobj()
             tar_fd.addfile(t, fileobj=data)
